@@ -44,7 +44,7 @@ class Gen:
         self.cases.append(Case('c%d' % self.n, func, blocks, args, meta))
 
     # ---------------- string family, separate flush blocks
-    def str_sep(self, funcs, dmaxes, srclens, bos_kinds=('unk',), flushes=('R',), priors=('garbage',), slen_rel=(None,)):
+    def str_sep(self, funcs, dmaxes, srclens, bos_kinds=('unk',), flushes=('R',), priors=('garbage',), slen_rel=(None,), orders=('ds', 'sd')):
         rng = self.rng
         for func in funcs:
             w, kind = STR_FUNCS[func]
@@ -55,9 +55,10 @@ class Gen:
                         for fl in flushes:
                             for prior in priors:
                                 for sr in slen_rel:
-                                    self._str_sep_one(func, w, kind, rmax, dmax, L, bosk, fl, prior, sr)
+                                    for order in orders:
+                                        self._str_sep_one(func, w, kind, rmax, dmax, L, bosk, fl, prior, sr, order)
 
-    def _str_sep_one(self, func, w, kind, rmax, dmax, L, bosk, fl, prior, sr):
+    def _str_sep_one(self, func, w, kind, rmax, dmax, L, bosk, fl, prior, sr, order='ds'):
         rng = self.rng
         has_slen = kind in ('ncpy', 'ncat')
         # source
@@ -71,6 +72,11 @@ class Gen:
         if has_slen and sr == 'unterm':
             return
         src_elems = src + [0]
+        soff = 0
+        if has_slen and slen < len(src_elems):
+            # declared readable extent: slen elements only; the block ends right after them
+            src_elems = src_elems[:slen]
+            if slen == 0: src_elems = [0x7e]; soff = w      # never dereferenced: pointer flush at the guard page
         src_block = enc(src_elems, w)
         # dest prior content
         real_dmax = dmax if 0 < dmax <= rmax else 0
@@ -97,16 +103,16 @@ class Gen:
         dest_block = enc(dcont, w)
         destbos = {'unk': BOS_UNKNOWN, 'exact': real_dmax * w, 'larger': objlen * w, 'smaller': objlen * w}[bosk]
         if bosk != 'unk' and real_dmax == 0: return
-        blocks = [(fl, dest_block), ('R', src_block)]
-        dptr = (0, 0) if len(dest_block) else None
-        if dptr is None and dmax != 0 and dmax <= rmax: return
-        if dptr is None: dptr = (0, 0)
-        args = [dptr, dmax, (1, 0)]
+        db, sb = (0, 1) if order == 'ds' else (1, 0)
+        blocks = [(fl, dest_block), ('R', src_block)] if order == 'ds' else [('R', src_block), (fl, dest_block)]
+        if not len(dest_block): return
+        dptr = (db, 0)
+        args = [dptr, dmax, (sb, soff)]
         if has_slen: args.append(slen)
         args.append(destbos)
         if has_slen: args.append(BOS_UNKNOWN)
-        meta = dict(cls='sep', w=w, kind=kind, dest=(0, 0), dmax=dmax, objlen=objlen, destbos=destbos,
-                    src=(1, 0), srclen=L, slen=slen, prior=prior, bosk=bosk, flush=fl)
+        meta = dict(cls='sep', w=w, kind=kind, dest=(db, 0), dmax=dmax, objlen=objlen, destbos=destbos,
+                    src=(sb, soff), srclen=L, slen=slen, prior=prior, bosk=bosk, flush=fl, order=order)
         self.add(func, blocks, args, meta)
 
     # ---------------- NULL / zero / huge argument combinations
@@ -123,7 +129,8 @@ class Gen:
                             for bosk in ('unk', 'exact'):
                                 real = dmax if 0 < dmax <= rmax else 4
                                 if bosk == 'exact' and not (0 < dmax <= rmax): continue
-                                dcont = rstring(rng, min(2, real - 1), w) + [0]
+                                k0 = rng.choice([0, min(2, real - 1)])
+                                dcont = rstring(rng, k0, w) + [0]
                                 dcont = dcont + [e if e else 0x5a for e in dec(garbage(rng, (real - len(dcont)) * w), w)]
                                 src = rstring(rng, 2, w) + [0]
                                 blocks = [('R', enc(dcont, w)), ('R', enc(src, w))]
@@ -197,7 +204,7 @@ class Gen:
                                 dbytes = {'eq': n * w, 'gt': n * w + 3 * w, 'lt': max(n * w - w, 0)}[drel]
                                 obj = dbytes + (2 * w if bosk == 'larger' else 0)
                                 if obj == 0: continue
-                                for val in (0, 0x41, 0xff if w == 1 else (1 << (8 * w)) - 2):
+                                for val in ((0, 0x41, 0x80, 0xfe, 0xff) if w == 1 else (0, 0x41, (1 << (8 * w)) - 2, 0x8081 if w == 2 else 0x80818283)):
                                     dblk = b'\xa5' * al + garbage(rng, obj)
                                     destbos = BOS_UNKNOWN if bosk == 'unk' else obj
                                     args = [(0, al), dbytes, val, n, destbos]
